@@ -482,3 +482,167 @@ func vxShortErr(err error) string {
 	}
 	return "error"
 }
+
+// ---- C04 through a real session --------------------------------------------------------------------
+
+type vxC04SessCase struct {
+	Resp     *cqlspec.Response `json:"resp"`
+	Prepared bool              `json:"prepared"`
+	NoSkip   bool              `json:"no_skip"` // cfg.DisableSkipMetadata
+	Codec    string            `json:"codec"`
+	Consumer int               `json:"consumer"`
+}
+
+type vxTracer struct{ ids [][]byte }
+
+func (t *vxTracer) Trace(id []byte) { t.ids = append(t.ids, append([]byte{}, id...)) }
+
+func TestVxC04Session(t *testing.T) {
+	vx.Check(t, vx.Prop{
+		ID: "C04", Part: "TestVxC04Session",
+		Rule: "a real session (protocol 1..5, compression none/snappy/lz4) issues one statement, unprepared or prepared (skip-metadata on unless disabled: the node then answers EXECUTE without metadata), and the node answers with a generated ROWS / VOID / ERROR response (C04's generator: header flags, nested types, null cells, every error code); the caller's view through Iter (Columns, Scan/Scanner/MapScan/SliceMap, Warnings, GetCustomPayload, tracer callback, returned error type and fields) must equal the response; non-trivial as TestVxC04Responses or a prepared statement with skipped metadata; distinct by the case",
+		Draw: func(t *rapid.T) interface{} {
+			var r *cqlspec.Response
+			for try := 0; try < 200; try++ {
+				r = vxDrawResponse(t)
+				if r.Kind == "ROWS" || r.Kind == "VOID" || r.Kind == "ERROR" {
+					break
+				}
+			}
+			return &vxC04SessCase{Resp: r, Prepared: rapid.Bool().Draw(t, "prepared"), NoSkip: rapid.IntRange(0, 3).Draw(t, "noskip") == 0,
+				Codec: rapid.SampledFrom([]string{"", "", "snappy", "lz4"}).Draw(t, "codec"), Consumer: rapid.IntRange(0, 3).Draw(t, "consumer")}
+		},
+		New: func() interface{} { return &vxC04SessCase{} },
+		Run: func(ci interface{}, k *vstats.Case) error {
+			c := ci.(*vxC04SessCase)
+			r := c.Resp
+			if r == nil || r.Version < 1 || r.Version > 5 || (r.Kind != "ROWS" && r.Kind != "VOID" && r.Kind != "ERROR") {
+				return nil
+			}
+			if r.Kind == "ERROR" && r.Code == cqlspec.ErrUnprepared {
+				return nil // makes the driver re-prepare and retry: C14's subject
+			}
+			if r.Meta != nil {
+				r.Meta.HasMore, r.Meta.StateHex = false, "" // paging is C15's subject
+			}
+			k.Class("kind=" + r.Kind)
+			k.Class(fmt.Sprintf("v%d prepared=%v", r.Version, c.Prepared))
+			comp, _ := vxCodec(c.Codec)
+			cl := vnode.NewCluster(vxSpecs(1, 1))
+			node := cl.Nodes()[0]
+			node.CompressResponses = true
+			skipped := false
+			node.Handler = func(rc *vnode.ReqCtx) {
+				switch rc.Req.Kind {
+				case "PREPARE":
+					rm := &cqlspec.Metadata{Columns: []cqlspec.Column{}}
+					if r.Kind == "ROWS" {
+						rm = &cqlspec.Metadata{Columns: r.Meta.Columns, GlobalSpec: r.Meta.GlobalSpec, Keyspace: r.Meta.Keyspace, Table: r.Meta.Table}
+					}
+					rc.Reply(&cqlspec.Response{Kind: "PREPARED", PreparedIDHex: "0102", Meta: &cqlspec.Metadata{Columns: []cqlspec.Column{}}, ResultMeta: rm})
+				case "EXECUTE", "QUERY":
+					out := *r
+					if r.Kind == "ROWS" && rc.Req.Kind == "EXECUTE" && rc.Req.Params.SkipMeta {
+						m := *r.Meta
+						m.NoMetadata = true
+						out.Meta = &m
+						skipped = true
+					}
+					rc.Reply(&out)
+				default:
+					rc.Reply(vxVoid())
+				}
+			}
+			s, err := vxClusterConfig(cl, r.Version, func(cfg *ClusterConfig) {
+				cfg.Compressor = comp
+				cfg.DisableSkipMetadata = c.NoSkip
+			}).CreateSession()
+			if err != nil {
+				return fmt.Errorf("harness: CreateSession: %v", err)
+			}
+			defer s.Close()
+			stmt := "LIST something"
+			if c.Prepared {
+				stmt = "SELECT * FROM t"
+			}
+			q := s.Query(stmt)
+			tr := &vxTracer{}
+			if r.TraceHex != "" {
+				q = q.Trace(tr)
+			}
+			iter := q.Iter()
+			nt := r.TraceHex != "" || r.Warnings != nil || r.HasPayload || comp != nil
+			defer func() {
+				if skipped {
+					k.Class("metadata-skipped")
+				}
+				if nt || skipped {
+					k.NonTrivial()
+				}
+			}()
+			if r.TraceHex != "" {
+				if len(tr.ids) != 1 || hex.EncodeToString(tr.ids[0]) != r.TraceHex {
+					return fmt.Errorf("tracer got %x, want one call with %s", tr.ids, r.TraceHex)
+				}
+			}
+			switch r.Kind {
+			case "ERROR":
+				err := iter.Close()
+				if err == nil {
+					return fmt.Errorf("ERROR %#x response surfaced as success", r.Code)
+				}
+				f, ok := err.(frame)
+				if !ok {
+					return fmt.Errorf("ERROR %#x surfaced as %T %v, not the decoded error frame", r.Code, err, err)
+				}
+				rr := *r
+				rr.Stream = f.Header().stream // the node answers on the request's stream
+				return vxCheckFrameKind(f, &rr)
+			case "VOID":
+				if r.Warnings != nil && !reflectDeepEqualStrs(iter.Warnings(), r.Warnings) {
+					return fmt.Errorf("Warnings() = %q, want %q", iter.Warnings(), r.Warnings)
+				}
+				if r.HasPayload && len(iter.GetCustomPayload()) != len(r.Payload) {
+					return fmt.Errorf("GetCustomPayload() = %v, want %v", iter.GetCustomPayload(), r.Payload)
+				}
+				var x int
+				if iter.NumRows() != 0 || iter.Scan(&x) {
+					return fmt.Errorf("VOID result has rows")
+				}
+				if err := iter.Close(); err != nil {
+					return fmt.Errorf("VOID result: Close: %v", err)
+				}
+				return nil
+			}
+			for _, col := range r.Meta.Columns {
+				if col.Type.Depth() >= 2 || col.Type.Kind == cqlspec.Tuple {
+					nt = true
+				}
+			}
+			if r.HasPayload {
+				for key, v := range r.Payload {
+					g, ok := iter.GetCustomPayload()[key]
+					if !ok || (v == "null") != (g == nil) || (v != "null" && hex.EncodeToString(g) != v) {
+						return fmt.Errorf("custom payload key %q is %x (present %v), want %s", key, g, ok, v)
+					}
+				}
+			}
+			if err := vxConsumeRows(iter, r, c.Consumer, k); err != nil {
+				return fmt.Errorf("ROWS v%d prepared=%v skipped=%v (%d cols, %d rows, consumer %d): %v", r.Version, c.Prepared, skipped, len(r.Meta.Columns), len(r.Rows), c.Consumer, err)
+			}
+			return nil
+		},
+	})
+}
+
+func reflectDeepEqualStrs(a, b []string) bool {
+	if len(a) != len(b) {
+		return false
+	}
+	for i := range a {
+		if a[i] != b[i] {
+			return false
+		}
+	}
+	return true
+}
